@@ -31,6 +31,7 @@ static std::vector<Doc> corpus(int arch) {
 	r.push_back({"obj3", V::map({{V::str("a"), V::integer(1)}, {V::str("b"), V::str("xy")}, {V::str("c"), V::boolean(true)}})});
 	r.push_back({"arr4", V::arr({V::integer(1), V::integer(-2), V::integer(300), V::integer(70000)})});
 	r.push_back({"obj_nested", V::map({{V::str("o"), V::map({{V::str("i"), V::integer(7)}, {V::str("s"), V::str("q")}})}, {V::str("l"), V::arr({V::integer(1), V::str("two")})}, {V::str("z"), V::integer(9)}})});
+	r.push_back({"obj_long", V::map({{V::str("h"), V::integer(1)}, {V::str("s"), V::str(std::string(600, 'L'))}, {V::str("z"), V::integer(9)}})});   // a value longer than two reader chunks
 	r.push_back({"obj_text", V::map({{V::str("s"), V::str("a\"b\\c<d>&e é€\xF0\x9F\x98\x80")}, {V::str("f"), V::dbl(0.1)}, {V::str("z"), V::integer(9)}})});
 	if (arch == tl::MsgPack) {
 		r.push_back({"obj_bin_ts", V::map({{V::str("b"), V::bin(std::string("\x00\x01\x02", 3))}, {V::str("t"), V::ts(1, 5)}, {V::str("n"), V::nil()}, {V::str("u"), V::integer(static_cast<ref::i128>(UINT64_MAX))}})});
@@ -38,6 +39,13 @@ static std::vector<Doc> corpus(int arch) {
 		r.push_back({"typed_keys", V::map({{V::integer(1), V::integer(5)}, {V::integer(-1), V::str("s")}, {V::dbl(2.5), V::integer(7)}})});
 	}
 	return r;
+}
+// erases the i-th field of the first object found depth-first (in every row for an array of rows); false if there is none
+static bool dropField(Node& n, int i) {
+	if (n.k == Obj && !n.scripted) { if (i >= static_cast<int>(n.fields.size()) || n.fields.size() < 2) return false; n.fields.erase(n.fields.begin() + i); return true; }
+	if (n.k == Obj && n.scripted) { if (i >= static_cast<int>(n.script.size()) || n.script.size() < 2) return false; n.script.erase(n.script.begin() + i); return true; }
+	bool any = false; for (auto& e : n.items) { if (e.k == Obj) { if (dropField(e, i)) any = true; } }
+	return any;
 }
 static void reverseFields(Node& n) { if (n.k == Obj) std::reverse(n.fields.begin(), n.fields.end()); for (auto& e : n.items) reverseFields(e); for (auto& f : n.fields) reverseFields(f.second); }
 
@@ -98,19 +106,22 @@ static void body(bsx::Ctx& c) {
 		if (static_cast<unsigned char>(bytes[pos]) == vals[vi]) { c.outcome("n/a:same_byte"); return; }
 		bytes[pos] = static_cast<char>(vals[vi]); mutDesc = bsx::fmt("end-%d=%02x", back, vals[vi]); byteTag = bsx::fmt("/byte=%02x", vals[vi]);
 	}
-	int order = c.choose(2, "order");
-	if (order) reverseFields(shape);
+	// request pattern: all fields in document order, all fields reversed, or all but the i-th top-level field (an unrequested member
+	// is skipped by the reader: on a stream that means seeking forward or discarding input past the end of the cache)
+	int order = c.choose(6, "order");
+	if (order == 1) reverseFields(shape);
+	if (order >= 2 && !dropField(shape, order - 2)) { c.outcome("n/a:no_such_field"); return; }
 	int skind = c.choose(3, "stream");   // 0 istringstream, 1 harness streambuf (seekable, short deliveries), 2 non-seekable streambuf
 	const char* sname[] = {"istringstream", "chunked", "nonseekable"};
 	int polsel = c.choose(2, "policy");  // 0 = Throw/Throw, 1 = Skip/Skip
 	auto opt = lib::opts(polsel == 0, polsel == 0);
 
-	std::string sigbase = std::string("C10/") + archName(arch) + "/chunk=" + std::to_string(chunk) + "/" + kindName[kind] + "/doc=" + d.name + "/order=" + (order ? "reversed" : "document") + "/stream=" + sname[skind] + "/pol=" + (polsel ? "SS" : "TT") + byteTag;
+	std::string sigbase = std::string("C10/") + archName(arch) + "/chunk=" + std::to_string(chunk) + "/" + kindName[kind] + "/doc=" + d.name + "/order=" + (order == 0 ? "document" : order == 1 ? "reversed" : "without_field" + std::to_string(order - 2)) + "/stream=" + sname[skind] + "/pol=" + (polsel ? "SS" : "TT") + byteTag;
 	c.describe(sigbase, "pad=" + std::to_string(pad) + " " + mutDesc + " bytes=" + (bytes.size() <= 120 ? bsx::hex(bytes) : bsx::hex(bytes.substr(bytes.size() - 100))));
 
 	// a mutated document whose load killed a worker earlier in this run (std::terminate from a throwing
 	// scope destructor - judged by C20) is not repeated for every padding / stream kind / delivery schedule
-	const uint64_t loadKey = bsx::fnv(std::string(archName(arch)) + "|" + d.name + "|" + mutDesc + "|" + (order ? "r" : "d") + (polsel ? "SS" : "TT") + (kind == 0 ? std::to_string(pad) + sname[skind] : std::string()));
+	const uint64_t loadKey = bsx::fnv(std::string(archName(arch)) + "|" + d.name + "|" + mutDesc + "|" + std::to_string(order) + (polsel ? "SS" : "TT") + (kind == 0 ? std::to_string(pad) + sname[skind] : std::string()));
 	if (!c.enter(loadKey)) { c.outcome("skipped:identical_load_crashed_earlier"); return; }
 	Node tm = shape; tm.canary();
 	lib::Out om = tl::load(arch, tm, bytes, tl::Source{}, opt);
@@ -138,8 +149,9 @@ static void body(bsx::Ctx& c) {
 	std::string dm = om.ok() ? tm.dumpLoaded() : "", ds = os.ok() ? ts.dumpLoaded() : "";
 	if (category(om) != category(os) || dm != ds) {
 		// a non-seekable stream legitimately cannot serve a backward request: InputOutputError is the documented category for that
-		if (skind == 2 && os.cls == "ser:InputOutputError" && arch == tl::MsgPack) { c.outcome("nonseekable:io_error_on_backward_request"); return; }
-		c.violation(sigbase + (buf.failedSeeks ? "/seek_refused" : "") + "/out=" + om.cls + "_vs_" + os.cls, "memory: " + om.cls + " " + (om.ok() ? dm : om.what) + " | stream: " + os.cls + " " + (os.ok() ? ds : os.what) + " | pad=" + std::to_string(pad) + " " + mutDesc + " deliveries_deviated=" + std::to_string(devs));
+		// (only when a position before the current one was really asked for and refused; a forward skip must work by discarding input)
+		if (skind == 2 && os.cls == "ser:InputOutputError" && arch == tl::MsgPack && buf.failedBackwardSeeks > 0) { c.outcome("nonseekable:io_error_on_backward_request"); return; }
+		c.violation(sigbase + (buf.failedBackwardSeeks ? "/backward_seek_refused" : "") + "/out=" + om.cls + "_vs_" + os.cls, "memory: " + om.cls + " " + (om.ok() ? dm : om.what) + " | stream: " + os.cls + " " + (os.ok() ? ds : os.what) + " | pad=" + std::to_string(pad) + " " + mutDesc + " deliveries_deviated=" + std::to_string(devs));
 	}
 }
 
